@@ -111,7 +111,7 @@ func c14child(e *env) {
 	w := rig.NewWriter(e.out, "C14", e.tier, e.seed)
 	w.Shards = 16
 	r := rig.NewRand(e.seed*977 + 14)
-	rounds := 9
+	rounds := 12
 	if e.tier == "thorough" {
 		rounds = 60
 	}
@@ -123,6 +123,9 @@ func c14child(e *env) {
 		if pooled && nconn < 8 {
 			nconn = 8
 		}
+		// every fourth round: the chunked handler as the per-connection L1 handler (real clock)
+		chunkedRound := round%4 == 3 && !pooled
+		nowRound := int64(t0)
 		if e.tier != "thorough" && nconn > 16 {
 			nconn = 16
 		}
@@ -133,6 +136,13 @@ func c14child(e *env) {
 		b.L1.LogOn, b.L2.LogOn = false, false
 		b.L1.SetNow(t0)
 		b.L2.SetNow(t0)
+		if chunkedRound {
+			nowRound = time.Now().Unix()
+			b.L1.RealClock = func() int64 { return time.Now().Unix() }
+			b.L2.RealClock = b.L1.RealClock
+			chunkedL1 = true // TTL classes and request kinds the chunked stack supports (see c01c)
+			w.Count("round=chunked-L1")
+		}
 		sock1, sock2 := "", ""
 		if pooled {
 			sock1, sock2 = newSock(e), newSock(e)
@@ -165,8 +175,17 @@ func c14child(e *env) {
 		for i := range runs {
 			// private keys for connection i; the generator draws from fsKeys, so swap them per connection
 			c := genCaseKeys(r, deploy, locked, proto, 10+r.Intn(25), w, []string{fmt.Sprintf("c%d-a", i), fmt.Sprintf("c%d-b", i), fmt.Sprintf("c%d-c", i)})
+			if chunkedRound {
+				// the round may straddle a second of the real clock: no TTL that could run out meanwhile
+				for si := range c.Steps {
+					if t := c.Steps[si].Req.TTL; t > 0 && t < 1000 {
+						c.Steps[si].Req.TTL = 0
+					}
+				}
+			}
 			runs[i] = &connRun{c: c}
 		}
+		chunkedL1 = false
 		if viaListen {
 			mainOrca := "l1l2"
 			if deploy == "l1only" {
@@ -207,7 +226,13 @@ func c14child(e *env) {
 				for si, st := range cr.c.Steps {
 					cn, ok := conns[st.Port]
 					if !ok {
-						cn = stack.Dial(b, stack.Config{Orca: orcaOf[st.Port], Locked: cr.c.Locked, MultiRd: true, L1: "std", Proto: cr.c.Proto, L1Sock: sock1, L2Sock: sock2})
+						l1k := "std"
+						if chunkedRound {
+							l1k = "chunked"
+						}
+						cn = stack.Dial(b, stack.Config{Orca: orcaOf[st.Port], Locked: cr.c.Locked, MultiRd: true, L1: l1k, Proto: cr.c.Proto, L1Sock: sock1, L2Sock: sock2})
+						// every request arrives in two pieces: the parser holds its state across reads
+						cn.SplitAt = 5 + (si*7)%40
 						conns[st.Port] = cn
 					}
 					var req []byte
@@ -225,7 +250,7 @@ func c14child(e *env) {
 					if closed {
 						delete(conns, st.Port)
 					}
-					cr.steps = append(cr.steps, gal.App("mkStep", cfgGallina(orcaOf[st.Port], cr.c.Locked), gal.N(uint64(t0)), "[]",
+					cr.steps = append(cr.steps, gal.App("mkStep", cfgGallina(orcaOf[st.Port], cr.c.Locked), gal.N(uint64(nowRound)), "[]",
 						st.Req.Gallina(), gal.Bytes(reply), gal.Bytes(reply), gal.Bool(closed), "[]", "[]"))
 				}
 			}(runs[i])
@@ -250,7 +275,7 @@ func c14child(e *env) {
 				Nontrivial: nconn >= 2 && len(cr.steps) > 3, Tags: caseTags(cr.c)})
 		}
 	}
-	w.Res.Rule = "rounds of 2..64 real connections (full stack: parser, server loop, orchestrator, std handlers or - every third round - the batching pools of handlers/memcached/batched for both tiers, shared fake backends; every third round the connections pass through rend's accept loop and are all accepted before the first byte of any) started together, each running a random command sequence on its own private keys; every connection's replies are compared with the sequential model of that connection alone; in the thorough tier the binary is built with -race and every race report naming repository code is a finding"
+	w.Res.Rule = "rounds of 2..64 real connections (full stack: parser, server loop, orchestrator, std handlers or - every third round - the batching pools of handlers/memcached/batched for both tiers, shared fake backends; every fourth round the chunked handler is the per-connection L1 handler (real clock); requests arrive split in two pieces; every third round the connections pass through rend's accept loop and are all accepted before the first byte of any) started together, each running a random command sequence on its own private keys; every connection's replies are compared with the sequential model of that connection alone; in the thorough tier the binary is built with -race and every race report naming repository code is a finding"
 	if err := w.Finish([]string{"base.Bytes", "base.Harness", "spec.MapSpec", "orca.Types", "proto.Resp", "checks.Check01"}, "case01", "check01 14"); err != nil {
 		rig.Die("%v", err)
 	}
